@@ -476,6 +476,75 @@ fn case_commands_large(t: &mut Tape, st: &mut Stats) -> Verdict {
     case_commands_with(t, st, 80)
 }
 
+/// (env-names) the commands that read and change the process environment, with hazard names and values. Names that
+/// the platform accepts are given a prefix so that no real variable is touched; what was set is removed again.
+fn case_env(t: &mut Tape, st: &mut Stats) -> Verdict {
+    let n = 1 + t.len(7);
+    let mut side: Vec<String> = vec![];
+    let mut script = String::from("hm = map\n");
+    let mut touched: Vec<String> = vec![];
+    let mut name = |t: &mut Tape, st: &mut Stats, touched: &mut Vec<String>| -> String {
+        let raw = match t.below(4) {
+            0 => t.pick(&["", "=", "a=b", "=x", "x=", "\0", "a\0b", " ", "é", "A B"]).to_string(),
+            _ => hazard_string(t, 3),
+        };
+        let valid = !raw.is_empty() && !raw.contains('=') && !raw.contains('\0');
+        if valid {
+            let nm = format!("DSVERIF_ENV_{}", raw);
+            touched.push(nm.clone());
+            nm
+        } else {
+            st.class("environment-variable-name-the-platform-refuses");
+            raw
+        }
+    };
+    for i in 0..n {
+        let nm = name(t, st, &mut touched);
+        let ni = side.len();
+        side.push(nm);
+        script.push_str(&format!("n{} = put {}\n", i, ni));
+        match t.below(6) {
+            0 | 1 => {
+                let mut v = hazard_string(t, 3);
+                if t.chance(1, 6) {
+                    v.push('\0');
+                    v.push_str(&hazard_string(t, 1));
+                }
+                if v.contains('\0') {
+                    st.class("environment-variable-value-with-nul");
+                }
+                let vi = side.len();
+                side.push(v);
+                script.push_str(&format!("v{} = put {}\no{} = set_env ${{n{}}} ${{v{}}}\n", i, vi, i, i, i));
+            }
+            2 => script.push_str(&format!("o{} = get_env ${{n{}}}\n", i, i)),
+            3 => script.push_str(&format!("o{} = unset_env ${{n{}}}\n", i, i)),
+            4 => {
+                let v = hazard_string(t, 2);
+                let vi = side.len();
+                side.push(v);
+                script.push_str(&format!("v{} = put {}\nx = map_put ${{hm}} ${{n{}}} ${{v{}}}\no{} = set_env --handle ${{hm}}\n", i, vi, i, i, i));
+            }
+            _ => script.push_str(&format!("o{} = env_to_map\nx = release ${{o{}}}\n", i, i)),
+        }
+    }
+    hz_reset();
+    with_hz(|h| h.side = side.clone());
+    let r = guarded(|| run_text(&script, sdk_context(), 50_000, None));
+    for nm in &touched {
+        std::env::remove_var(nm);
+    }
+    match r {
+        Err((msg, loc)) => fail(&panic_signature(&loc), json!({"script": script, "values": side, "panic": msg, "location": loc})),
+        Ok(out) => {
+            if out.fuel_exhausted || out.depth_exceeded {
+                return fail("C07/does-not-finish", json!({"script": script, "values": side}));
+            }
+            Verdict::Pass(Some(fp(&(&script, &side))))
+        }
+    }
+}
+
 const SOUP: &[&str] = &[" ", " ", " ", "\n", "\n", "=", " = ", "\"", "\\", "#", ":", "!", "${ha}", "${", "%{hm}", "%", "$", "(", ")", "and", "or", "not", "true", "false", "0", "-r", "--copy", "\t", "é", "😀", "\0", "\u{feff}", "\u{feff}", "\u{85}", "\u{2028}"];
 
 fn case_text(t: &mut Tape, st: &mut Stats) -> Verdict {
@@ -561,7 +630,7 @@ fn case_cycle(t: &mut Tape, st: &mut Stats) -> Verdict {
 pub fn property() -> Property {
     Property {
         id: "C07",
-        rule: "(commands) 1..25 (thorough ..80) lines after a preamble that creates an array, maps, a set, a byte array, a released handle and variables; each line invokes ANY registered name of the SDK (all aliases and canonical names, minus the removed families) with an argument list drawn from a TYPED pool derived from the usage line of its help text (handles of the right/wrong kind, released, unknown; numbers incl. negative, huge, decimal, non-numeric, non-ASCII digits; multi-byte and syntax-bearing text; variable names; relative non-existing paths; documented flags) or from an UNTYPED pool (any value anywhere), with outputs chained into later arguments, exit_on_error toggles, finite for loops (whose body may shorten, clear, release or re-point the iterated array), user aliases of SDK commands and user functions with SDK-only bodies; one case in five is run in two parts, the second part on the context returned by the first; (text) token soup of real command names, syntax characters and hazard strings; (include-cycle) files forming an include cycle of length 1..4 with relative/absolute/.. paths, parsed in a child process. Oracle: the run returns Ok or Err - a panic (caught, with location) is a violation; every shard runs in a child process, so an abort or stack overflow is attributed to the case that was running; fuel or nesting-limit exhaustion in (commands) is the 'does not finish' verdict because no generated line is a loop construct, alias of an alias, or recursive function; in (text) it is only counted. Non-trivial: every (commands) case; distinct by script text",
+        rule: "(commands) 1..25 (thorough ..80) lines after a preamble that creates an array, maps, a set, a byte array, a released handle and variables; each line invokes ANY registered name of the SDK (all aliases and canonical names, minus the removed families) with an argument list drawn from a TYPED pool derived from the usage line of its help text (handles of the right/wrong kind, released, unknown; numbers incl. negative, huge, decimal, non-numeric, non-ASCII digits; multi-byte and syntax-bearing text; variable names; relative non-existing paths; documented flags) or from an UNTYPED pool (any value anywhere), with outputs chained into later arguments, exit_on_error toggles, finite for loops (whose body may shorten, clear, release or re-point the iterated array), user aliases of SDK commands and user functions with SDK-only bodies; one case in five is run in two parts, the second part on the context returned by the first; (env-names) set_env (also --handle) / get_env / unset_env / env_to_map with hazard names (empty, with '=' or NUL) and values (with NUL), accepted names prefixed so that no real variable is touched; (text) token soup of real command names, syntax characters and hazard strings; (include-cycle) files forming an include cycle of length 1..4 with relative/absolute/.. paths, parsed in a child process. Oracle: the run returns Ok or Err - a panic (caught, with location) is a violation; every shard runs in a child process, so an abort or stack overflow is attributed to the case that was running; fuel or nesting-limit exhaustion in (commands) is the 'does not finish' verdict because no generated line is a loop construct, alias of an alias, or recursive function; in (text) it is only counted. Non-trivial: every (commands) case; distinct by script text",
         assumptions: &[
             "removed from the context before anything runs (stated exclusions + safety of the root-run checker): exec, spawn, exit/quit/q, watchdog, sleep, read, network commands, hostname, cd, set_env/unset_env, test_directory/test_file, every command that creates, modifies, deletes, lists or reads files (writefile, appendfile, cp, mv, rm, mkdir, touch, chmod, zip, glob_array, ls, cat, readfile, digest ...), which, man, and the internal:: family (its documentation generator writes a file to any path it is given)",
             "resource-proportional requests are bounded: range / random_text / random_range only receive literal numbers of magnitude <= 255, never a value computed by an earlier line, and are not spelled in the text soup",
@@ -585,6 +654,15 @@ pub fn property() -> Property {
                 },
                 case: case_commands_large,
                 min_classes: &[],
+            },
+            Section {
+                name: "env-names",
+                plan: |t| match t {
+                    Tier::Quick => Plan::Random { cases: 20_000, max_len: 80 },
+                    Tier::Thorough => Plan::Random { cases: 400_000, max_len: 80 },
+                },
+                case: case_env,
+                min_classes: &[("environment-variable-name-the-platform-refuses", 3000), ("environment-variable-value-with-nul", 300)],
             },
             Section {
                 name: "text",
